@@ -761,7 +761,7 @@ Example schemaless_same_type_nonvacuous :
 Proof.
   cbv zeta. repeat match goal with |- _ /\ _ => split end;
     match goal with
-    | |- exists _, _ => eexists; split; vm_compute; reflexivity      (* never normalise under the binder *)
+    | |- exists _, _ => eexists; split; [vm_compute; reflexivity | vm_compute; reflexivity]   (* never normalise under a binder or over an open evar *)
     | |- _ => vm_compute; reflexivity
     end.
 Qed.
@@ -771,7 +771,7 @@ Qed.
 Example schemaless_refused :
   (exists b, encode BER true 0 (TImp (mkTag Ctx false 1) TInt) (VInt 5) = Ok b /\ decode BER None b = Err EMalformed)
   /\ (exists b, encode BER true 0 (TStr 13) (VOcts [65]) = Ok b /\ decode BER None b = Err EMalformed).
-Proof. split; eexists; split; vm_compute; reflexivity. Qed.
+Proof. split; (eexists; split; [vm_compute; reflexivity | vm_compute; reflexivity]). Qed.
 
 Print Assumptions schemaless_roundtrip_stage1_codecs.
 Print Assumptions schemaless_roundtrip_stage1.
